@@ -516,7 +516,9 @@ int main(void) {
       for (Y = 0; Y < h->ph; Y++) for (X = 0; X < h->pw; X++) hs = fnv_add(hs, h->pic[(size_t)Y * h->pw + X], BPP);
       if (tok[0][3] == 'q') printf("picq %d", i);   /* oracle only: no hash */
       else printf("pic %d %016llx", i, (unsigned long long)hs);
-      if (h->pw < 1 || h->ph < 1 || h->pw > SW || h->ph > SH) { printf(" DIFF told size %dx%d unusable ORACLE\n", h->pw, h->ph); continue; }
+      if (h->pw < 1 || h->ph < 1) { printf(" DIFF told size %dx%d unusable ORACLE\n", h->pw, h->ph); continue; }
+      /* the framebuffer was replaced by a smaller one and the client has not been told yet */
+      if (h->pw > SW || h->ph > SH) { printf(" stale-size\n"); continue; }
       for (Y = 0; Y < h->ph && !bad; Y++) for (X = 0; X < h->pw && !bad; X++) {
         uint32_t want = reference(h->pw, h->ph, X, Y), got = h->pic[(size_t)Y * h->pw + X];
         if (want != got) { printf(" DIFF %d %d %x %x", X, Y, got, want); bad = 1; }
